@@ -1,6 +1,7 @@
 import Xp.Proofs.C07
 import Xp.Proofs.C07Hist
 import Xp.Proofs.C07Rev
+import Xp.Proofs.C07World
 /-
 C07 — claim and XR exchange exactly the fields each side owns.
 
@@ -638,5 +639,166 @@ theorem xr_owned_preserved_history (c : Cfg) (s0 : St) (pre post : List Op) (gen
   have hvalid : ClaimValid cs := by
     have := hinv.1; simpa [KObj.specFields, hcs, objFields] using this
   exact xr_owned_preserved c gen _ cs x hcs hx hvalid hinv.2
+
+/-! ### worlds that are not quiet: stale cached reads, third parties, failing calls
+
+`syncSSAW` / `syncCSAW` (Xp/Model/C07World.lean) are the call-level model the harness
+runs: what the reconciler READ (`rcm`, `rxr`: any version, the XR possibly missing) is
+an input of its own, third parties write before any API call, any call may fail with
+any error class, writes of the claim are resource-version checked. Everything above is
+about the special case below; what follows holds in every world. -/
+
+/-- **world_model_is_sync_when_quiet**: no third party, no failing call, the reconciler
+read the stored objects: the call-level model IS `syncSSA` / `syncCSA` (stored claim, XR,
+applied configuration, writes, error), so every theorem above is a theorem about the
+model the differential harness runs. -/
+theorem world_model_is_sync_when_quiet (c : Cfg) (gen : String) (s : Srv) :
+    (let o := syncSSAW c gen World.quiet s.cm s.cmV s.xr s
+     o.srv.toSt = (syncSSA c gen s.toSt).st ∧ o.writes = (syncSSA c gen s.toSt).writes ∧
+       o.err = (syncSSA c gen s.toSt).err) ∧
+    ((s.xr = none → s.prev = none) →
+     let o := syncCSAW c gen World.quiet s.cm s.cmV s.xr s.xrV s
+     o.srv.toSt = (syncCSA c gen s.toSt).st ∧ o.writes = (syncCSA c gen s.toSt).writes ∧
+       o.err = (syncCSA c gen s.toSt).err) :=
+  ⟨syncSSAW_quiet c gen s, fun hp => syncCSAW_quiet c gen s hp⟩
+
+/-- **claim_to_xr_every_world**: in every world - whatever third parties write between the
+calls, whichever call fails, however stale the cached reads - every request either syncer
+sends to the XR (apply, create, merge patch) carries the field partition of the claim AS
+READ: user and composition-selection fields unchanged, claim-only and each-side machinery
+never, the revision reference iff the update policy of the XR as read is Manual, and a
+`claimRef` naming the claim. -/
+theorem claim_to_xr_every_world (c : Cfg) (gen : String) (w : World) (rcm : KObj) (rcmV : Nat)
+    (rxr : Option KObj) (rxrV : Nat) (s : Srv) (cs : AL J) (hcs : rcm.spec = some (.obj cs))
+    (wr : Write) (hx : wr.isXR = true)
+    (h : wr ∈ (syncSSAW c gen w rcm rcmV rxr s).writes ∨ wr ∈ (syncCSAW c gen w rcm rcmV rxr rxrV s).writes)
+    (k : String) :
+    let ps := wr.body.specFields
+    (owner k = .user ∨ owner k = .shared → alookup k ps = alookup k cs) ∧
+    (owner k = .claimOnly ∨ owner k = .eachSide → alookup k ps = none) ∧
+    (owner k = .revision →
+      alookup k ps = if policyOf (xrSpecFields rxr) == some "Manual" then alookup k cs else none) ∧
+    (k = "claimRef" → alookup k ps = some (claimRefJ c rcm)) := by
+  rcases h with h | h
+  · have := syncSSAW_xr_writes c gen w rcm rcmV rxr s cs hcs wr h hx
+    subst this
+    have t := claim_to_xr c gen rcm rxr cs k
+    exact ⟨t.1, t.2.1, t.2.2.1, t.2.2.2.1⟩
+  · rcases syncCSAW_xr_writes c gen w rcm rcmV rxr rxrV s cs hcs wr h hx with e | e <;>
+    · subst e
+      exact claim_to_xr_csa c gen rcm rxr cs k
+
+/-- **xr_owned_preserved_any_store**: what the XR side owns survives whatever XR the write
+meets in the store. For EVERY stored XR `cur` (changed by anybody since it was read, or
+never seen by the cache at all) and every read `rcm`, `rxr` the write body was computed
+from: the server-side apply (claim controller's previous configuration not owning, see
+`prev_never_owns_every_world`) and the client-side merge patch leave `resourceRefs`,
+`writeConnectionSecretToRef`, `publishConnectionDetailsTo` and the status of `cur` as they are. -/
+theorem xr_owned_preserved_any_store (c : Cfg) (gen : String) (rcm : KObj) (rxr : Option KObj) (cs : AL J)
+    (cur : KObj) (prev : Option KObj) (hv : ClaimValid cs)
+    (hprev : ∀ q, prev = some q → ∀ k, XrOwned k → alookup k q.specFields = none) :
+    (let y := applySSA (some cur) prev (ssaPatch c gen rcm rxr cs)
+     (∀ k, XrOwned k → alookup k y.specFields = alookup k cur.specFields) ∧ y.status = cur.status ∧ y.name = cur.name) ∧
+    (let y := mergePatchXR cur (csaDesired c gen rcm rxr cs)
+     (∀ k, XrOwned k → alookup k y.specFields = alookup k cur.specFields) ∧ y.status = cur.status) :=
+  ⟨applySSA_keeps_owned c gen rcm rxr cs cur prev hv hprev, mergePatch_keeps_owned c gen rcm rxr cs cur hv⟩
+
+/-- **prev_never_owns_every_world**: the hypothesis of `xr_owned_preserved_any_store` is an
+invariant of every sync in every world: if the configuration last applied by the claim
+controller's field manager mentions no key the XR side owns, it still does not after a
+sync by either syncer - with any third-party writes, failing calls and stale reads - as
+long as the claim that was read is a valid instance of the claim CRD. -/
+theorem prev_never_owns_every_world (c : Cfg) (gen : String) (w : World) (rcm : KObj) (rcmV : Nat)
+    (rxr : Option KObj) (rxrV : Nat) (s : Srv) (hp : PrevOK s) (hv : ClaimValid rcm.specFields) :
+    PrevOK (syncSSAW c gen w rcm rcmV rxr s).srv ∧ PrevOK (syncCSAW c gen w rcm rcmV rxr rxrV s).srv :=
+  ⟨syncSSAW_prevOK c gen w rcm rcmV rxr s hp hv, syncCSAW_prevOK c gen w rcm rcmV rxr rxrV s hp⟩
+
+/-- **stale_claim_never_overwritten**: a sync that works on a copy of the claim older than
+the stored claim (an old version from the cache; for the server-side syncer also: a user
+edited the claim between the read and the first write) never writes the claim: it ends in
+an error and the stored claim is exactly what third parties made of it (`ClaimByEnv`). The
+server-side syncer stops at its first call, before anything is sent to the XR. -/
+theorem stale_claim_never_overwritten (c : Cfg) (gen : String) (w : World) (rcm : KObj) (rcmV : Nat)
+    (rxr : Option KObj) (rxrV : Nat) (s : Srv) (cs : AL J) (hcs : rcm.spec = some (.obj cs)) :
+    (rcmV ≠ (applyActs s (w.acts 0)).cmV →
+      let o := syncSSAW c gen w rcm rcmV rxr s
+      o.err ≠ "" ∧ o.srv = applyActs s (w.acts 0) ∧ o.calls = 1 ∧ (∀ wr ∈ o.writes, wr.isXR = false)) ∧
+    (rcmV < s.cmV →
+      let o := syncCSAW c gen w rcm rcmV rxr rxrV s
+      o.err ≠ "" ∧ ClaimByEnv s o.srv) :=
+  ⟨syncSSAW_stale_claim c gen w rcm rcmV rxr s cs hcs, syncCSAW_stale_claim c gen w rcm rcmV rxr rxrV s cs hcs⟩
+
+/-- **no_api_error_swallowed**: every error class at every call. A sync that returns no
+error had no failing call - the one exception being a NotFound answer to the Get inside
+the client-side Apply (its first or second call), which means "create the XR". -/
+theorem no_api_error_swallowed (c : Cfg) (gen : String) (w : World) (rcm : KObj) (rcmV : Nat)
+    (rxr : Option KObj) (rxrV : Nat) (s : Srv) (cs : AL J) (hcs : rcm.spec = some (.obj cs)) :
+    ((syncSSAW c gen w rcm rcmV rxr s).err = "" →
+      ∀ k, k < (syncSSAW c gen w rcm rcmV rxr s).calls → w.inj k = none) ∧
+    ((syncCSAW c gen w rcm rcmV rxr rxrV s).err = "" →
+      ∀ k, k < (syncCSAW c gen w rcm rcmV rxr rxrV s).calls → ∀ e, w.inj k = some e → k ≤ 1 ∧ e = "notFound") :=
+  ⟨syncSSAW_ok_no_failed_call c gen w rcm rcmV rxr s cs hcs, syncCSAW_ok_no_failed_call c gen w rcm rcmV rxr rxrV s⟩
+
+/-- **external_name_preserved_when_read**: the exact boundary of the recorded finding D27.
+Whatever XR the server-side apply meets in the store, afterwards it carries the external
+name of the XR AS READ (when that is not empty): an existing external name survives iff
+the version the reconciler read already carried it. -/
+theorem external_name_preserved_when_read (c : Cfg) (gen : String) (rcm : KObj) (rxr : Option KObj) (cs : AL J)
+    (cur : KObj) (prev : Option KObj) (hen : extName rxr ≠ "") (hnd : NoDup rcm.anns) :
+    extName (some (applySSA (some cur) prev (ssaPatch c gen rcm rxr cs))) = extName rxr :=
+  applySSA_extName_of_read c gen rcm rxr cs cur prev hen hnd
+
+/-- D27 witness state: the stored XR received the external name `xr-new` after the version
+the informer cache still holds (`d27ReadXR`, no external name); the claim carries its own. -/
+def d27Stored : Srv :=
+  { cm := { name := "my-claim"
+            annotations := some [("crossplane.io/external-name", "claim-ext")]
+            spec := some (.obj [("region", .str "eu"), ("resourceRef", xrRefJ wcfg "my-claim-x")]) }
+    cmV := 3
+    xr := some { name := "my-claim-x"
+                 labels := [("crossplane.io/claim-name", "my-claim"), ("crossplane.io/claim-namespace", "team-a")]
+                 annotations := some [("crossplane.io/external-name", "xr-new")]
+                 spec := some (.obj [("claimRef", claimRefJ wcfg { name := "my-claim" }), ("region", .str "eu")]) }
+    xrV := 5 }
+
+def d27ReadXR : KObj :=
+  { name := "my-claim-x"
+    labels := [("crossplane.io/claim-name", "my-claim"), ("crossplane.io/claim-namespace", "team-a")]
+    spec := some (.obj [("claimRef", claimRefJ wcfg { name := "my-claim" }), ("region", .str "eu")]) }
+
+/-- the same XR before a third party gave it an external name, and that third party's write -/
+def d27Before : Srv := { d27Stored with xr := some d27ReadXR }
+
+def d27Race : World :=
+  { acts := fun k => if k = 1 then [Act.xrCtl { setAnn := [("crossplane.io/external-name", "xr-new")] }] else [] }
+
+/-- Negation witness for "an existing external name is preserved" on the unchanged
+server-side syncer outside the quiet world (recorded finding D27, signature
+`C07:external-name-overwritten-after-stale-xr-read`): (1) the reconciler reads an XR
+version that does not carry the external name yet (cache lag) - the sync succeeds and the
+stored XR's `xr-new` is replaced by the claim's `claim-ext`; (2) the reads are fresh but a
+third party sets the external name between the claim update and the apply - same loss;
+(3) with a fresh read and no interference the name survives (`external_name_preserved`). -/
+theorem external_name_overwritten_after_stale_read_witness :
+    extName d27Stored.xr = "xr-new" ∧
+    (let o := syncSSAW wcfg "g" World.quiet d27Stored.cm d27Stored.cmV (some d27ReadXR) d27Stored
+     o.err = "" ∧ extName o.srv.xr = "claim-ext") ∧
+    (let o := syncSSAW wcfg "g" d27Race d27Before.cm d27Before.cmV d27Before.xr d27Before
+     o.err = "" ∧ extName o.srv.xr = "claim-ext") ∧
+    (let o := syncSSAW wcfg "g" World.quiet d27Stored.cm d27Stored.cmV d27Stored.xr d27Stored
+     o.err = "" ∧ extName o.srv.xr = "xr-new") := by decide
+
+/-- the hypotheses of the world theorems are satisfiable: a stale claim copy against a
+store that moved on, an injected failure, a third party's edit -/
+example :
+    let w : World := { acts := fun k => if k = 0 then [Act.editClaim { setSpec := [("region", .str "us")] }] else []
+                       inj := fun k => if k = 1 then some "forbidden" else none }
+    -- the user's edit before the first write makes the claim copy stale: Conflict, nothing else happens
+    (syncSSAW wcfg "g" w d27Stored.cm d27Stored.cmV d27Stored.xr d27Stored).err = "api:conflict" ∧
+    strAt "region" (syncSSAW wcfg "g" w d27Stored.cm d27Stored.cmV d27Stored.xr d27Stored).srv.cm = "us" ∧
+    -- without the edit the injected Forbidden on the apply is returned, the XR is untouched
+    (syncSSAW wcfg "g" { inj := w.inj } d27Stored.cm d27Stored.cmV d27Stored.xr d27Stored).err = "api:forbidden" ∧
+    extName (syncSSAW wcfg "g" { inj := w.inj } d27Stored.cm d27Stored.cmV d27Stored.xr d27Stored).srv.xr = "xr-new" := by
+  decide
 
 end Xp.C07
